@@ -113,3 +113,6 @@ def conversation(sfl: int, cfl: int, ti: int, n_c2s: int, n_s2c: int, idle: int,
     post: _ == ''
     """
     return verdict(untraced(_interop, sfl, cfl, ti, n_c2s, n_s2c, idle, who, connect_send))
+
+
+from vf.validate.stubs import ALL as VALIDATE  # noqa: E402  (stub-vs-real conformance, run before the obligations)
